@@ -1,4 +1,5 @@
 let () =
   match Sys.argv.(1) with
   | "diff" -> D_diff.run ()
+  | "config" -> D_config.run ()
   | x -> prerr_endline ("unknown " ^ x); exit 2
